@@ -311,16 +311,23 @@ func (f Fed) FilterForwarding(c context.Context, potentialRecipients []*url.URL,
 	if err != nil {
 		return nil, err
 	}
+	out := potentialRecipients
 	switch a.Filter {
 	case FilterFirst:
+		out = nil
 		if len(potentialRecipients) > 0 {
-			return potentialRecipients[:1], nil
+			out = potentialRecipients[:1]
 		}
-		return nil, nil
 	case FilterNone:
-		return nil, nil
+		out = nil
 	}
-	return potentialRecipients, nil
+	a.FilterIn = append(a.FilterIn, ids)
+	outIDs := make([]string, len(out))
+	for i, u := range out {
+		outIDs[i] = us(u)
+	}
+	a.FilterOut = append(a.FilterOut, outIDs)
+	return out, nil
 }
 
 func (f Fed) GetInbox(c context.Context, r *http.Request) (vocab.ActivityStreamsOrderedCollectionPage, error) {
